@@ -10,7 +10,7 @@ from harness.hlib import fresh, nodes, snap, nsmap_sharing, store_keys, part, bo
 OP = part(0) % 100       # operation pinned per process
 FLD = part(0) // 100     # which field carries the symbolic value: 0 content, 1 tail, 2 attribute value, 3 extras value
 MAXLEN = bound(2)
-WHERE = (2, 9, 14, 1)    # title, userId, unitList (own nsmap, under metadata), dataset  (indices in document order)
+WHERE = (2, 9, 17, 1)    # title, userId, unitList (own nsmap, under metadata), dataset  (indices in document order)
 
 
 class FakeJson:
@@ -47,12 +47,15 @@ def _tree(val: Optional[str], where: int, fld: int, has_dir: bool):
     cr2 = Node("creator", id="n12")                 # second creator: path queries fan out over two nodes
     ind2 = Node("individualName", id="n13")
     sur2 = Node("surName", id="n14", content="Other")
+    ks1 = Node("keywordSet", id="n15")              # two keyword sets (the first one without keywords)
+    ks2 = Node("keywordSet", id="n16")
+    kw = Node("keyword", id="n17", content="lake")
     con = Node("contact", id="n7")
     org = Node("organizationName", id="n8", content="Org")
     am = Node("additionalMetadata", id="n9")
     md = Node("metadata", id="n10")
     ul = Node("unitList", id="n11")
-    for p, c in ((eml, ds), (ds, title), (ds, cr2), (cr2, ind2), (ind2, sur2), (ds, cr), (cr, ind), (ind, sur), (cr, uid), (ds, con), (con, org),
+    for p, c in ((eml, ds), (ds, title), (ds, cr2), (cr2, ind2), (ind2, sur2), (ds, cr), (cr, ind), (ind, sur), (cr, uid), (ds, ks1), (ds, ks2), (ks2, kw), (ds, con), (con, org),
                  (eml, am), (am, md), (md, ul)):
         p.add_child(c)
     # a descendant that repeats its parent's prefixes and adds one (its own dict object)
